@@ -178,7 +178,7 @@ REG.macro("mr_eff", ["c"],
           "_importers=(S_eff(c) if unwrap(c.import_) else O_eff(c)), _importees=(O_eff(c) if unwrap(c.import_) else S_eff(c)), "
           "_importer_specified_as_rule_subject=unwrap(c.import_))")
 REG.macro("rule_ok_cfg", ["c"], "(not cfg_bad(c)) and not br_inconsistent(b_eff(c))")
-_OPQ = ["realised_b", "abstract_b", "realised_m_b", "missing_b", "G_realised_b", "G_abstract_b", "G_or_f", "G_or_r", "G_om_f", "G_om_r"]
+_OPQ = ["realised_b", "abstract_b", "realised_m_b", "missing_b", "G_realised_b", "G_abstract_b", "G_or_f", "G_or_r", "G_om_f", "G_om_r", "Q_edge", "Q_else_f", "Q_else_r"]
 REG.add(Contract("Rule.assert_applies", module=M_RULE, kind="method",
                  params=dict(self="Rule", evaluable="EvaluableArchitectureGraph"), returns="None", modifies=["self"],
                  requires=["WF(evaluable._graph)"],
@@ -189,7 +189,7 @@ REG.add(Contract("Rule.assert_applies", module=M_RULE, kind="method",
                      ("ImpossibleMatch", "rule_ok_cfg(self._configuration) and mr_unmatched(evaluable._graph, mr_eff(self._configuration))"),
                      ("NetworkXError", "rule_ok_cfg(self._configuration) and (not mr_unmatched(evaluable._graph, mr_eff(self._configuration))) and fv_raises(evaluable._graph, umr_of(evaluable._graph, mr_eff(self._configuration)), b_eff(self._configuration))"),
                      # C01: AssertionError exactly when the (graph-level) violation predicate holds
-                     ("AssertionError", "rule_ok_cfg(self._configuration) and (not mr_unmatched(evaluable._graph, mr_eff(self._configuration))) and (not fv_raises(evaluable._graph, umr_of(evaluable._graph, mr_eff(self._configuration)), b_eff(self._configuration))) and verdict_viol(evaluable._graph, umr_of(evaluable._graph, mr_eff(self._configuration)), b_eff(self._configuration))"),
+                     ("AssertionError", "rule_ok_cfg(self._configuration) and (not mr_unmatched(evaluable._graph, mr_eff(self._configuration))) and (not fv_raises(evaluable._graph, umr_of(evaluable._graph, mr_eff(self._configuration)), b_eff(self._configuration))) and viol_Q(evaluable._graph, umr_of(evaluable._graph, mr_eff(self._configuration)), b_eff(self._configuration))"),
                  ],
                  # C15: evaluation rewrites nothing but the alias normalisation of the rule's own configuration
                  ensures=["self._rule_matcher_class == old(self)._rule_matcher_class",
